@@ -105,7 +105,7 @@ func HostileSeeds() []Seed {
 	// action expressions
 	for _, a := range []string{
 		"`raw`, nil", `"a>b", nil`, `"$1", nil`, `func() (interface{}, error) { return $0, nil }()`, "$0, nil // trailing comment\n", `[]interface{}{$0, $1}, nil`,
-		`map[string]interface{}{"k": $0}, nil`, "X[0], nil", `"%s{{.}}", nil`, "struct{ a interface{} }{\n\t$0,\n}, nil", `'>', nil`, `1 >> 0, nil`,
+		`map[string]interface{}{"k": $0}, nil`, "X[0], nil", "// the node\n\t$0, nil", "/* the\n node */ $0, nil", "\n\n\t$0,\n\tnil\n", `"%s{{.}}", nil`, "struct{ a interface{} }{\n\t$0,\n}, nil", `'>', nil`, `1 >> 0, nil`,
 	} {
 		add("action-"+strconv.Quote(a), fmt.Sprintf("a : 'a' ;\nb : 'b' ;\nS : a b << %s >> ;\n", a))
 	}
@@ -213,6 +213,10 @@ func Respellings(toks []Tok) []Respelling {
 				} else {
 					alts = []string{`"` + body + `"`}
 				}
+			} else if t.Text[0] == '"' && !strings.ContainsAny(body, "`\n") {
+				// gocc takes the text between the quotes as it stands (no unescaping), so an interpreted literal with
+				// escapes - "\"" , "a\\b" - names the same terminal as the raw literal with the same text
+				alts = []string{"`" + body + "`"}
 			}
 		}
 		for _, a := range alts {
